@@ -20,6 +20,10 @@ def bucket_of(r, labels):
     return None
 
 
+# optional independent score: VALUE_HOOK[0](result, mode) -> float | None (None = use the library's own matching value)
+VALUE_HOOK = [None]
+
+
 def symbol(r, lab, mode, thr, policy):
     """-> (weight 0/1/None, near_boundary)"""
     g = r.ground_truth_object
@@ -28,6 +32,10 @@ def symbol(r, lab, mode, thr, policy):
     if g.semantic_label.label != lab:
         return None, False
     v = r.get_matching(mode).value
+    if VALUE_HOOK[0] is not None:
+        vi = VALUE_HOOK[0](r, mode)
+        if vi is not None:
+            v = vi
     near = abs(v - thr) < 1e-9
     better = v > thr if mode in MAXIMIZE else v < thr
     ok = better and RL.compatible(policy, r.estimated_object.semantic_label.label.name, g.semantic_label.label.name)
